@@ -219,4 +219,41 @@ theorem foreign_frame_history_partial (s : TdfSt) (ops : List Op) (hops : ∀ op
   simp only [Entry.meta, Prod.mk.injEq] at h2
   exact h2
 
+/-! ### every state (session 5): what an accepted add stores, on ANY table — any order, gaps, ill-formed or not -/
+
+theorem readAt_writeAt_same (v new : Bytes) (off : Nat) : readAt (writeAt v off new) off new.length = new := by
+  unfold readAt writeAt
+  split
+  · rename_i h
+    have : (List.take off v).length = off := by simp [List.length_take]; omega
+    rw [List.append_assoc, List.drop_append, this]
+    simp [List.drop_eq_nil_of_le, this]
+  · rename_i h
+    have hl : (v ++ zeros (off - v.length)).length = off := by simp; omega
+    rw [List.drop_append, hl]
+    simp [List.drop_eq_nil_of_le, hl]
+
+/-- ANY state: after an accepted `add_block` the slot that was the first unused one holds the entry of the new block, and reading that
+    entry's byte range through the open object returns exactly the bytes the block wrote — wherever the slot pointed (inside the file,
+    at its end, behind it) -/
+theorem add_stores_any (s : TdfSt) (b : BlkArg) (c : Str) (now : Int) (pos : Nat) (pl : Bytes)
+    (hd : hasType b.typ s.entries = false) (hf : firstUnused s.entries = some pos) (hchk : checkArg b c now = .ok pl)
+    (hh : (s.entries.drop (pos + 1)).any (fun e => e.typ != 0) = false) (hsz : pl.length = b.size) :
+    (addBlock s b c now).1.entries[pos]? =
+        some ⟨b.typ, b.fmt, (s.entries.getD pos unusedEntry).off, b.size, b.cdate, b.mdate, now, c⟩
+    ∧ payloadOf (addBlock s b c now).1 ⟨b.typ, b.fmt, (s.entries.getD pos unusedEntry).off, b.size, b.cdate, b.mdate, now, c⟩ = pl := by
+  have hlt : pos < s.entries.length := by
+    obtain ⟨e, h1, _, _⟩ := findIdxBy_some _ _ _ hf
+    exact (List.getElem?_eq_some_iff.mp h1).1
+  constructor
+  · rw [addBlock_entries s b c now pos pl hd hf hchk hh]
+    have hlen : (List.take pos s.entries).length = pos := by simp [List.length_take]; omega
+    rw [List.getElem?_append_right (by omega), hlen]
+    simp
+  · unfold addBlock payloadOf
+    simp only [hd, hf, hchk, hh, Bool.false_eq_true, if_false]
+    have : ((b.size : Nat) : Int).toNat = pl.length := by omega
+    rw [this]
+    exact readAt_writeAt_same _ _ _
+
 end Tdf.C04
